@@ -31,7 +31,7 @@ NOT_DEMANDED = []
 KNOWN = {"C15-1": ("py-exec-error:SyntaxError:class-name", "exporter.PythonExporter/encapsulated_class_name.witness"),
          "C15-2": ("py-exec-error:TypeError:class-shadows", "exporter.PythonExporter/encapsulated_class_shadows_library_name.witness")}
 def RP(cls=None):
-    kw = {"budget": 40, "skip_classes": NOT_DEMANDED}
+    kw = {"budget": 40, "skip_classes": NOT_DEMANDED + ([] if cls else [v[0] for v in KNOWN.values()])}       # a fallback search looks for something NEW
     if cls:
         kw["only_class"] = cls
     return {"replay": {"module": N_, "func": "replay_python_roundtrip", "kwargs": kw, "vars": {}}}
